@@ -63,6 +63,23 @@ def apdus(ck, rnd):
             yield bytes([v >> 8 | (rnd.randrange(64) << 2), v & 0xFF]) + bytes(rnd.randrange(256) for _ in range(ln - 2))
     for _ in range(2000 if quick else 100000):
         yield bytes(rnd.randrange(256) for _ in range(rnd.choice([3, 3, 4, 5, 8, 12])))
+    # one bit set / one bit clear in an otherwise uniform body: a flag together with an all-zero (or all-one) field next to it
+    # (for the codes some length of which is not refused as an unknown service; all codes in the thorough tier)
+    known, per = [], {}
+    for v in range(1024):
+        outs = {decode(bytes([v >> 8, v & 0xFF]) + bytes(n))[0] for n in range(0, 15)} - {"unsup"}
+        name = ",".join(sorted(outs))
+        if not quick or (outs and per.get(name, 0) < 3):      # quick: three codes per service (the 6-bit services own 64 codes each)
+            per[name] = per.get(name, 0) + 1
+            known.append(v)
+    for v in known:
+        for ln in (3, 4, 5, 6, 7, 8, 10, 12, 16) if quick else range(3, 24):
+            for pos in range(2, min(ln, 10)):
+                for bit in range(8):
+                    for bg in (0x00, 0xFF):
+                        b = bytearray([v >> 8, v & 0xFF]) + bytearray([bg]) * (ln - 2)
+                        b[pos] ^= 1 << bit
+                        yield bytes(b)
 
 
 def run04(ck):
